@@ -232,6 +232,10 @@ def optint_wire(v) -> str:
     return f"some {v}" if isinstance(v, int) else "none"
 
 
+from common.py2lean_specs import with_translation  # noqa: E402
+
+
+@with_translation
 class C05(Property):
     id = "C05"
     lean_props = ["TIV.C05.Props"]
